@@ -2,6 +2,8 @@
 import numpy as np
 from hypothesis import strategies as st
 
+from mv import hperm
+
 from mv import model_atoms as M
 
 ELEMENTS = ["C", "H", "O", "N", "Zr", "Cu", "F", "S"]
@@ -43,11 +45,11 @@ def cell_any(draw, oriented="lammps"):
 def typed_structure(draw, min_atoms=1, max_atoms=8, tag_base=0, cell="lammps", term_modes=None, max_terms=4,
                     extras=True, pair=None, label_prefix="", coords="in-cell", dups=False):
     """a spec (see model_atoms).  Charges are unique identity tags: tag_base + 0.001*(i+1) with alternating sign."""
-    n = draw(st.integers(min_atoms, max_atoms))
+    n = draw(hperm.integers(min_atoms, max_atoms))
     spec = M.empty_spec()
     c = draw(cell_any(oriented="any-or-none" if cell == "any-or-none" else "lammps")) if cell != "none" else None
     spec["cell"] = c
-    ntypes = draw(st.integers(1, 4))
+    ntypes = draw(hperm.integers(1, 4))
     from mofun.atomic_masses import ATOMIC_MASSES
     for t in range(ntypes):
         e = draw(st.sampled_from(ELEMENTS))
@@ -64,12 +66,12 @@ def typed_structure(draw, min_atoms=1, max_atoms=8, tag_base=0, cell="lammps", t
         else:
             f = [draw(st.floats(-1.5, 2.5)) for _ in range(3)]
         spec["pos"].append((np.array(f) @ C).tolist())
-        spec["atom_types"].append(draw(st.integers(0, ntypes - 1)))
+        spec["atom_types"].append(draw(hperm.integers(0, ntypes - 1)))
         sign = -1 if i % 2 else 1
         spec["charges"].append(round(sign * (tag_base + 0.001 * (i + 1)), 6))
-        spec["groups"].append(draw(st.integers(0, 3)))
+        spec["groups"].append(draw(hperm.integers(0, 3)))
     if extras and draw(st.booleans()):
-        k = draw(st.integers(1, 2))
+        k = draw(hperm.integers(1, 2))
         spec["extra_atom_labels"] = XLABELS["atom"][:k]
         spec["extra_atom_fields"] = [[draw(st.sampled_from(XVALUES)) for _ in range(k)] for _ in range(n)]
     for kind in M.KINDS:
@@ -79,24 +81,24 @@ def typed_structure(draw, min_atoms=1, max_atoms=8, tag_base=0, cell="lammps", t
             mode = "none" if mode == "untyped" else "table-no-terms"
         if mode == "none":
             continue
-        ntt = draw(st.integers(1, 3))
+        ntt = draw(hperm.integers(1, 3))
         if mode in ("table", "table-no-terms"):
-            rows = ntt + draw(st.integers(0, 1))          # optionally an unused trailing row
+            rows = ntt + draw(hperm.integers(0, 1))          # optionally an unused trailing row
             spec[kind + "_coeffs"] = [draw(coeff_text(tagged="%s%s%d" % (kind[0], label_prefix, r))) for r in range(rows)]
         if mode == "table-no-terms":
             continue
-        nt = draw(st.integers(1, max_terms))
+        nt = draw(hperm.integers(1, max_terms))
         seen = set()
         for _ in range(nt):
-            t = list(draw(st.permutations(range(n))))[:size]
+            t = list(draw(hperm.permutations(range(n))))[:size]
             key = min(tuple(t), tuple(t[::-1]))
-            if key in seen and not (dups and draw(st.integers(0, 2)) == 0):
+            if key in seen and not (dups and draw(hperm.integers(0, 2)) == 0):
                 continue          # mostly distinct tuples; now and then a second term on the same atoms (multi-term torsion)
             seen.add(key)
             spec[kind + "s"].append(t)
-            spec[kind + "_types"].append(draw(st.integers(0, ntt - 1)))
+            spec[kind + "_types"].append(draw(hperm.integers(0, ntt - 1)))
         if extras and draw(st.booleans()):
-            k = draw(st.integers(1, len(XLABELS[kind])))
+            k = draw(hperm.integers(1, len(XLABELS[kind])))
             spec["extra_%s_labels" % kind] = XLABELS[kind][:k]
             spec["extra_%s_fields" % kind] = [[draw(st.sampled_from(XVALUES)) for _ in range(k)] for _ in spec[kind + "s"]]
     return spec
